@@ -97,6 +97,7 @@ class HexSys:
                        extra_batches=jsonable(extra_batches), pairs=pairs, chain=chain)
         self.pairs = pairs
         self.chain = chain
+        self.many_events = bool(pairs or chain)
         if pairs and (write_faults or "wfail" in exits):
             raise ValueError("write-fault positions are counted from the pre-state; not available for pairs")
         self.labels = alphabet.Labels(seed)
@@ -220,7 +221,8 @@ class HexSys:
                 if st.snap is None or st.viols:
                     return Step(None, st.model, viols)
                 cur_snap, cur_model = st.snap, st.model
-                if i < len(ev) - 2:
+                if i < len(ev) - 2 and not self.chain:
+                    # (chains rely on the same-object probes after every sub-event; pairs also get the full state invariants)
                     viols += self.state_check(cur_snap, cur_model)
                     if viols:
                         return Step(None, cur_model, viols)
